@@ -57,6 +57,7 @@ func c16Run(r *run.Runner, c map[string]any) {
 		}
 	}
 	epoch0 := time.Now()
+	var etagOf sync.Map // body serial -> ETag the origin sent with that body
 	origin := &sim.Origin{Jitter: runtime.Gosched}
 	origin.Handler = func(uc *sim.UpCall, req *http.Request) *sim.Reply {
 		xa := req.Header.Get("X-A")
@@ -69,6 +70,7 @@ func c16Run(r *run.Runner, c map[string]any) {
 		if inm := req.Header.Get("If-None-Match"); inm != "" && inm == etag {
 			return Render(&RespSpec{Status: 304, ETag: etag, Vary: []string{"X-A"}, Extra: map[string][]string{"X-Res": {res}}}, uc.Enter, uc.Serial)
 		}
+		etagOf.Store(uc.Serial, etag) // the validator this body was sent with
 		rs := RespSpec{Status: 200, CC: []string{"max-age=1, stale-while-revalidate=3"}, ETag: etag, Vary: []string{"X-A"}, BodySize: 200 + len(res)*7,
 			Extra: map[string][]string{"X-Res": {res}}}
 		if strings.HasSuffix(req.URL.Path, "1") {
@@ -116,6 +118,7 @@ func c16Run(r *run.Runner, c map[string]any) {
 				want := path + "|" + xa
 				got := resp.Header.Get("X-Res")
 				st := resp.Header.Get("X-Httpcache-Status")
+				gotETag := resp.Header.Get("Etag")
 				resp.Header.Set("X-Caller", "mine")
 				for k := range resp.Header {
 					_ = resp.Header[k]
@@ -143,6 +146,13 @@ func c16Run(r *run.Runner, c map[string]any) {
 				if got != want {
 					vmu.Lock()
 					viols = append(viols, fmt.Sprintf("wrong-resource|request for %s answered with a response for %s (status header %s)", want, got, st))
+					vmu.Unlock()
+				}
+				if want, ok := etagOf.Load(bi.Serial); ok && method == "GET" && gotETag != "" && gotETag != want.(string) {
+					// a 304 only ever confirms the validator it was asked about: the
+					// ETag on a response is the one its body was sent with
+					vmu.Lock()
+					viols = append(viols, fmt.Sprintf("validator-of-another-representation|response for %s carries ETag %s but its body (message %s) was sent with %s (cache status %s)", want0(want), gotETag, bi.Serial, want.(string), st))
 					vmu.Unlock()
 				}
 				if rerr != nil || !bi.Intact {
@@ -207,4 +217,12 @@ func c16Run(r *run.Runner, c map[string]any) {
 	if r.WantSample() {
 		r.Sample(map[string]any{"case": c, "requests": sum.total, "HIT": sum.fromStore, "STALE": sum.stale, "REVALIDATED": sum.reval, "MISS": sum.miss, "BYPASS": sum.bypass, "errors": sum.errs})
 	}
+}
+
+func want0(v any) string {
+	s, _ := v.(string)
+	if i := strings.LastIndexByte(s, '-'); i > 1 {
+		return s[1:i]
+	}
+	return s
 }
